@@ -238,6 +238,32 @@ func ruleConsistencyForwarded(e *Engine, r *Reporter) {
 				}
 				opt := args[len(args)-1]
 				d := describe_(opt)
+				if !strings.Contains(d, "Preference=") {
+					// options taken out of a value a same-module helper built (query struct): look at what the helper returns
+					root := opt
+					for i := 0; i < 4; i++ {
+						switch x := unwrap(root).(type) {
+						case *ssa.Field:
+							root = x.X
+							continue
+						case *ssa.UnOp:
+							root = x.X
+							continue
+						case *ssa.FieldAddr:
+							root = x.X
+							continue
+						case *ssa.Alloc:
+							if sts := storesTo(x); len(sts) == 1 {
+								root = sts[0].Val
+								continue
+							}
+						}
+						break
+					}
+					if dd := describeDeep(root); strings.Contains(dd, "Preference=") {
+						d = dd
+					}
+				}
 				key := fmt.Sprintf("%s | %s #%d", fname(top), c.Common().Method.Name(), ordinalIn(top, in))
 				ok2 := false
 				detail := d
@@ -294,6 +320,30 @@ func rulePgPool(e *Engine, r *Reporter) {
 				ok = true
 			}
 		})
+		if !ok {
+			// the pool is selected in a same-package helper that receives the preference from this method
+			eachInstr(fn, true, func(in ssa.Instruction) {
+				via, isCall := in.(ssa.CallInstruction)
+				if !isCall {
+					return
+				}
+				h := staticCallee(via)
+				if h == nil || len(h.Blocks) == 0 || pkgOf(h) != pkgOf(fn) || h == gp {
+					return
+				}
+				eachInstr(h, true, func(in2 ssa.Instruction) {
+					c, isCall := in2.(ssa.CallInstruction)
+					if !isCall || staticCallee(c) != gp {
+						return
+					}
+					d := describe_(atCaller(c.Common().Args[1], via))
+					detail = d
+					if d == paramName(optsP)+".Consistency.Preference" {
+						ok = true
+					}
+				})
+			})
+		}
 		r.Check(ok, fname(fn), e.pos(fn.Pos()), "pool = getPgxPool("+detail+")", "the pool is not selected from the caller's consistency preference: "+detail)
 	}
 	// getPgxPool: the secondary is returned only when preference != HIGHER_CONSISTENCY.  The selection may be
